@@ -21,6 +21,7 @@ constexpr auto index(Range&& rng, Index&& i) noexcept -> decltype(auto)
     using etl::begin;
     using etl::end;
 
+    TETL_PRECONDITION(static_cast<etl::ptrdiff_t>(i) >= 0);
     TETL_PRECONDITION(static_cast<etl::ptrdiff_t>(i) < (end(rng) - begin(rng)));
     return begin(etl::forward<Range>(rng))[etl::forward<Index>(i)];
 }
